@@ -17,7 +17,7 @@ from harness import fw
 from harness.fw import Err, catch, cstr, clist, cpair, copt
 
 IMPORTS = ["Webob.Lib.PyStr", "Webob.Lib.C09_Utf8", "Webob.Model.MultiDict", "Webob.Model.C09_QueryCodec",
-           "Webob.Model.C09_Multipart"]
+           "Webob.Model.C09_Multipart", "Webob.Model.C09_Held"]
 
 UDE = Err("UnicodeDecodeError")
 
@@ -356,6 +356,7 @@ QS_ALPHA = ["%", "+", "&", ";", "=", "a", "4", "z", "\xc3", "\xa9"]
 QS_ALPHA2 = ["%", "2", "B", "6", "3", "b", "+", "="]
 QS_CHUNKS = QS_ALPHA + ["%C3%A9", "%c3%a9", "%E2%82%AC", "%F0%9F%98%80", "%41", "%2B", "%26", "%3d", "%25", "%0", "%g1",
                         "%1g", "%+5", "%5 ", "% 5", "%-1", "%0x", "%_1", "%1_", "%u20ac", "%%", "F", "f", "0", "9", "G",
+                        "%c3%A9", "%C3%a9", "%e2%82%aC", "%aB", "%Ab", "%fF", "%Ff", "%eD%a0%80",
                         " ", "\x00", "\xff", "%ED%A0%80", "%C0%80", "%F4%90%80%80", "b", "k", "\xe2\x82\xac", "%e9"]
 
 
@@ -472,6 +473,7 @@ NAME_CHUNKS = ["a", "b", "name", "", " ", ";", "=", "&", '"', "\\", '\\"', "\\\\
                "€", "\U0001f600", "%41", "+", ":", "/", "[]", "'", "\x0b", "\x0c", "\x1c", "\x85", " ",
                "filename=", "; filename=\"x\"", "--", "\x7f", "", "\U0010ffff"]
 VALUE_CHUNKS = NAME_CHUNKS + ["\r", "\n", "\r\n", "\r\n\r\n", "\r\n--", "value", "x" * 40]
+LONG_CHUNKS = ["x" * 400, "\r\n", "\r", "\n", "\xe9" * 300, "line\r\n" * 90, "y" * 1001, "\n\r", "--"]
 EXTS = ["", ".txt", ".png", ".bin", ".tar.gz", ".HTML", ".js", ".unknown"]
 
 
@@ -480,6 +482,8 @@ def rand_name(rng, maxn=3):
 
 
 def rand_value(rng, maxn=4):
+    if rng.random() < 0.06:        # > 1000 characters with CR / LF: cgi switches to a temporary file there
+        return "".join(rng.choice(LONG_CHUNKS) for _ in range(rng.randrange(3, 9)))
     return "".join(rng.choice(VALUE_CHUNKS) for _ in range(rng.randrange(maxn + 1)))
 
 
@@ -674,6 +678,494 @@ def cs_fields(rng, cs):
     return out
 
 
+# ===================================================================== held GetDict objects (model: C09_Held.v)
+def chq(o):
+    if o[0] == "setqs":
+        return "(HSetQS %s)" % cstr(o[1])
+    if o[0] == "held":
+        return "(HHeld %d%%nat %s)" % (o[1], cop(o[2]))
+    return "(HGet %s)" % cop(o)
+
+
+def run_held_history(qs0, ops, check=False):
+    """ONE Request; every GetDict request.GET ever handed out is kept (heap, in order of creation) and may be
+    mutated later.  check=False: observations for the correspondence.  check=True: the property oracle."""
+    req, env = new_request(qs0)
+    heap, exp = [], []
+
+    def reg(g):
+        for j, h in enumerate(heap):
+            if h is g:
+                return j
+        heap.append(g)
+        exp.append(ref_decode_qs(env["QUERY_STRING"]))
+        return len(heap) - 1
+    out = []
+    for i, o in enumerate(ops):
+        ret, j, op = None, None, None
+        if o[0] == "setqs":
+            env["QUERY_STRING"] = o[1]
+        elif o[0] == "held":
+            if o[1] < len(heap):
+                j, op = o[1], fix_op(o[2])
+        else:
+            g = catch(lambda: req.GET)
+            if isinstance(g, Err):
+                ret = g
+            else:
+                j, op = reg(g), fix_op(o)
+        if j is not None:
+            ret = apply_op(heap[j], op)
+            if check and not isinstance(exp[j], Err):
+                exp[j], want_ret = ref_apply(exp[j], op)
+                if ret != want_ret:
+                    return "mutation:return-value", "step %d %r returned %r, list model says %r" % (i, o, ret, want_ret)
+        v = catch(lambda: req.GET)
+        items = v if isinstance(v, Err) else [list(kv) for kv in heap[reg(v)].items()]
+        cells = [[list(kv) for kv in h.items()] for h in heap]
+        out.append([ret, items, env["QUERY_STRING"], cells])
+        if check:
+            want = ref_decode_qs(env["QUERY_STRING"])
+            if items != want:
+                wrote = j is not None and op[0] != "copy" and not isinstance(ret, Err)
+                key = ("live:held-getdict-write-back" if o[0] == "held" else "mutation:write-back") if wrote else \
+                    classify_query(env["QUERY_STRING"], items, want)
+                return key, ("step %d %r: request.GET shows %r but a fresh parse of QUERY_STRING %r gives %r"
+                             % (i, o, items, env["QUERY_STRING"], want))
+            if cells != exp:
+                return "live:held-getdict-items", "step %d %r: the GetDict objects show %r, list model %r" % (i, o, cells, exp)
+            if j is not None and op[0] != "copy" and not isinstance(ret, Err) and items != exp[j]:
+                return "live:held-getdict-write-back", ("step %d %r: the mutated GetDict shows %r but request.GET %r"
+                                                        % (i, o, exp[j], items))
+    return None if check else out
+
+
+def rand_held_history(rng, maxlen):
+    qs0 = rand_valid_qs(rng) if rng.random() < 0.6 else rand_qs(rng, 8)
+    ops = []
+    for _ in range(rng.randrange(2, maxlen + 1)):
+        if rng.random() < 0.35:
+            ops.append(("held", rng.randrange(4), rand_op(rng, False)))
+        else:
+            o = rand_op(rng, True)
+            if o[0] == "setqs" and rng.random() < 0.6:
+                o = ("setqs", rand_valid_qs(rng))
+            ops.append(o)
+    return qs0, ops
+
+
+def fix_hop(o):
+    return ("held", o[1], fix_op(o[2])) if o[0] == "held" else fix_op(o)
+
+
+# ===================================================================== ONE long-lived Request (statefulness)
+def make_live_request(qs, fields, mode):
+    from webob import Request
+    kw = {}
+    if mode != "none":
+        kw["POST"] = list(fields)
+        kw["content_type"] = {"multipart": "multipart/form-data",
+                              "urlencoded": "application/x-www-form-urlencoded"}[mode]
+    return Request.blank("/", environ={"QUERY_STRING": qs}, **kw)
+
+
+def live_snapshot(req):
+    """Observable state of the request, taken WITHOUT moving the body stream (a rewind would hide a dependence of
+    later calls on the stream position)."""
+    env = req.environ
+    raw = env["wsgi.input"]
+    try:
+        pos = raw.tell()
+        raw.seek(0)
+        data = raw.read()
+        raw.seek(pos)
+    except Exception:  # noqa
+        data = None
+    return [env.get("QUERY_STRING"), env.get("CONTENT_TYPE"), env.get("CONTENT_LENGTH"), env.get("REQUEST_METHOD"), data]
+
+
+def live_views(req):
+    """What one Request shows: GET, POST, params (exceptions canonicalised)."""
+    return [catch(lambda: [list(kv) for kv in req.GET.items()]), catch(lambda: canon_post(req.POST)),
+            catch(lambda: canon_post(req.params))]
+
+
+def oracle_live(case):
+    """ONE Request (and the GetDicts obtained from it) used for a whole history of reads, mutations, raw
+    QUERY_STRING edits, body replacements, copy(), copy_get() and decode(cs).  After every step every view must
+    equal what the reference says (= what a brand-new, identically constructed Request shows), read-only calls
+    must leave QUERY_STRING / CONTENT_* / body untouched, and copies must be independent."""
+    fields, mode = fix_fields(case["fields"]), case["mode"]
+    req = make_live_request(case["qs0"], fields, mode)
+    env = req.environ
+    cur_get = ref_decode_qs(case["qs0"])
+    cur_post = want_post(fields) if mode != "none" else []
+    held = []              # [GetDict object, expected items] for every GetDict ever handed out
+    cur_fields, cur_mode = fields, mode
+
+    def expected_of(g):
+        for e in held:
+            if e[0] is g:
+                return e
+        held.append([g, [list(kv) for kv in cur_get]])
+        return held[-1]
+
+    def check_views(r, what, get=None, post=None):
+        get = cur_get if get is None else get
+        post = cur_post if post is None else post
+        v = live_views(r)
+        want_params = get if isinstance(get, Err) else get + post
+        if v[0] != get:
+            return "live:get", "%s: GET shows %r, expected %r" % (what, v[0], get)
+        if v[1] != post:
+            return "live:post", "%s: POST shows %r, expected %r" % (what, v[1], post)
+        if v[2] != want_params:
+            return "live:params", "%s: params shows %r, expected GET+POST %r" % (what, v[2], want_params)
+        return None
+
+    for i, a in enumerate(case["acts"]):
+        t = a[0]
+        what = "step %d %r" % (i, a)
+        if t in ("rget", "rpost", "rparams", "rall", "hread"):
+            before = live_snapshot(req)
+            if t == "rget":
+                got = catch(lambda: [list(kv) for kv in req.GET.items()])
+                if got != cur_get:
+                    return "live:get", "%s: GET shows %r, expected %r" % (what, got, cur_get)
+            elif t == "rpost":
+                for n in (1, 2):            # twice: cached per body object, and files must be readable again
+                    got = catch(lambda: canon_post(req.POST))
+                    if got != cur_post:
+                        return "live:post", "%s (read #%d): POST shows %r, expected %r" % (what, n, got, cur_post)
+            elif t == "rparams":
+                got = catch(lambda: canon_post(req.params))
+                want = cur_get if isinstance(cur_get, Err) else cur_get + cur_post
+                if got != want:
+                    return "live:params", "%s: params shows %r, expected %r" % (what, got, want)
+            elif t == "rall":
+                r = check_views(req, what)
+                if r:
+                    return r
+            elif held:
+                g, exp = held[a[1] % len(held)]
+                got = [list(kv) for kv in g.items()]
+                if got != exp:
+                    return "live:held-getdict-items", "%s: held GetDict shows %r, expected %r" % (what, got, exp)
+            after = live_snapshot(req)
+            if after != before:
+                return "live:state-changed-by-read", "%s: read-only access changed %r into %r" % (what, before, after)
+        elif t == "setqs":
+            env["QUERY_STRING"] = a[1]
+            cur_get = ref_decode_qs(a[1])
+        elif t in ("mut", "hmut"):
+            if t == "mut":
+                if isinstance(cur_get, Err):
+                    continue
+                g = catch(lambda: req.GET)
+                if isinstance(g, Err):
+                    return "live:get", "%s: request.GET raised %r, expected %r" % (what, g, cur_get)
+                e = expected_of(g)
+                if e[1] != cur_get:
+                    return "live:get", "%s: request.GET is a GetDict showing %r, expected %r" % (what, e[1], cur_get)
+            else:
+                if not held:
+                    continue
+                e = held[a[2] % len(held)]
+                g = e[0]
+            op = fix_op(a[1])
+            ret = apply_op(g, op)
+            exp, want_ret = ref_apply(e[1], op)
+            if ret != want_ret:
+                return "mutation:return-value", "%s returned %r, list model says %r" % (what, ret, want_ret)
+            e[1] = exp
+            got = [list(kv) for kv in g.items()]
+            if got != exp:
+                return "mutation:items", "%s: the GetDict shows %r, expected %r" % (what, got, exp)
+            if op[0] != "copy" and not isinstance(ret, Err):
+                cur_get = [list(kv) for kv in exp]     # the mutated GetDict took over QUERY_STRING
+                fresh = impl_get(env["QUERY_STRING"])
+                if fresh != exp:
+                    key = "mutation:write-back" if t == "mut" else "live:held-getdict-write-back"
+                    return key, "%s: GetDict shows %r but a fresh parse of QUERY_STRING %r gives %r" % (
+                        what, got, env["QUERY_STRING"], fresh)
+                now = catch(lambda: [list(kv) for kv in req.GET.items()])
+                if now != exp:
+                    return "live:get", "%s: afterwards request.GET shows %r, expected %r" % (what, now, exp)
+        elif t == "hold":
+            if not isinstance(cur_get, Err):
+                g = catch(lambda: req.GET)
+                if not isinstance(g, Err):
+                    expected_of(g)
+        elif t == "body":
+            f2, m2 = fix_fields(a[1]), a[2]
+            r2 = make_live_request("", f2, m2)
+            env["CONTENT_TYPE"] = r2.environ["CONTENT_TYPE"]
+            env["REQUEST_METHOD"] = "POST"
+            req.body = r2.body
+            cur_post, cur_fields, cur_mode = want_post(f2), f2, m2
+            r = check_views(req, what + " (body replaced)")
+            if r:
+                return ("live:post-stale-after-body-replaced", r[1]) if r[0] == "live:post" else r
+        elif t in ("copy", "copy_get"):
+            before = live_snapshot(req)
+            c = req.copy() if t == "copy" else req.copy_get()
+            r = check_views(c, what + " (the copy)", post=(None if t == "copy" else []))
+            if r:
+                return "live:copy-differs", r[1]
+            if not isinstance(cur_get, Err):
+                op = fix_op(a[1])
+                cg = c.GET
+                apply_op(cg, op)
+                exp_c, _ = ref_apply([list(kv) for kv in cur_get], op)
+                fresh_c = impl_get(c.environ["QUERY_STRING"])
+                if fresh_c != exp_c:
+                    shared = getattr(cg, "env", None) is not c.environ
+                    return ("live:copy-shares-getdict" if shared else "live:copy-write-back"), ("%s: the copy's GET shows %r but its QUERY_STRING %r parses to %r"
+                                                    % (what, [list(kv) for kv in cg.items()], c.environ["QUERY_STRING"],
+                                                       fresh_c))
+            if t == "copy":
+                c.body = b"x=changed"
+            after = live_snapshot(req)
+            if after != before:
+                key = "live:copy-shares-getdict" if after[1:] == before[1:] else "live:copy-not-independent"
+                return key, "%s: using the copy changed the original from %r to %r" % (what, before, after)
+            now = catch(lambda: [list(kv) for kv in req.GET.items()])
+            if now != cur_get:
+                return "live:copy-not-independent", "%s: afterwards the original's GET shows %r, expected %r" % (
+                    what, now, cur_get)
+        elif t == "decode":
+            cs = a[1]
+            before = live_snapshot(req)
+            fresh = make_live_request(env["QUERY_STRING"], cur_fields, cur_mode)
+            want = catch(lambda: live_views(fresh.decode(cs)))
+            for n in (1, 2):                # decode() is a pure function of the request: twice gives the same
+                got = catch(lambda: live_views(req.decode(cs)))
+                if got != want:
+                    return "live:decode-differs-from-fresh", (
+                        "%s: decode(%r) #%d of the used Request shows %r, of a brand-new identical Request %r"
+                        % (what, cs, n, got, want))
+            if not isinstance(got, Err) and not isinstance(cur_get, Err) and cs.lower() != "utf-8":
+                d = req.decode(cs)
+                dg = catch(lambda: d.GET)
+                if not isinstance(dg, Err):
+                    dg.add("zz", "1")           # the decoded request is a new request
+            after = live_snapshot(req)
+            if after != before:
+                key = "live:copy-shares-getdict" if after[1:] == before[1:] else "live:decode-changed-original"
+                return key, "%s: decode(%r) / using its result changed the original from %r to %r" % (
+                    what, cs, before, after)
+            now = catch(lambda: [list(kv) for kv in req.GET.items()])
+            if now != cur_get:
+                return "live:decode-changed-original", "%s: afterwards the original's GET shows %r, expected %r" % (
+                    what, now, cur_get)
+        else:
+            raise ValueError(a)
+    return check_views(req, "at the end of the history")
+
+
+def rand_live_case(rng, maxlen):
+    mode = rng.choice(["urlencoded", "multipart", "multipart", "none"])
+    fields = [] if mode == "none" else rand_fields(rng, files=(mode == "multipart"), maxn=3)
+    qs0 = rand_valid_qs(rng) if rng.random() < 0.75 else rand_qs(rng, 8)
+    acts = []
+    for _ in range(rng.randrange(2, maxlen + 1)):
+        t = rng.choice(["rget", "rpost", "rparams", "rall", "rall", "mut", "mut", "mut", "setqs", "hold", "hold", "hmut",
+                        "hmut", "hread", "body", "copy", "copy_get", "decode"])
+        if t == "mut":
+            acts.append((t, rand_op(rng, False)))
+        elif t == "hmut":
+            acts.append((t, rand_op(rng, False), rng.randrange(8)))
+        elif t == "hread":
+            acts.append((t, rng.randrange(8)))
+        elif t == "setqs":
+            acts.append((t, rand_valid_qs(rng) if rng.random() < 0.7 else rand_qs(rng, 8)))
+        elif t == "body":
+            m2 = rng.choice(["urlencoded", "multipart"])
+            acts.append((t, rand_fields(rng, files=(m2 == "multipart"), maxn=2), m2))
+        elif t in ("copy", "copy_get"):
+            acts.append((t, rand_op(rng, False)))
+        elif t == "decode":
+            acts.append((t, rng.choice(["latin-1", "latin-1", "UTF-8", "utf8", "cp1252", "shift_jis"])))
+        else:
+            acts.append((t,))
+    return {"kind": "live", "qs0": qs0, "fields": fields, "mode": mode, "acts": acts}
+
+
+DIRECTED_LIVE = [
+    # a held GetDict survives a raw QUERY_STRING edit and takes QUERY_STRING over when it is mutated
+    {"qs0": "a=1&b=2", "fields": [], "mode": "none",
+     "acts": [("hold",), ("setqs", "c=3"), ("rget",), ("hread", 0), ("hmut", ("pop", "a", True, None), 0), ("rall",),
+              ("setqs", "c=3"), ("hmut", ("pop", "zz", True, "d"), 0), ("rall",), ("hold",), ("setqs", "a=1&b=2"),
+              ("hmut", ("del", "b"), 0), ("hmut", ("setdefault", "b", "9"), 1), ("rall",)]},
+    # same mutation twice / nothing-changed mutations must still write back
+    {"qs0": "a=%31;b=+", "fields": [], "mode": "none",
+     "acts": [("mut", ("pop", "zz", True, "d")), ("rget",), ("setqs", "a=%31;b=+"), ("mut", ("setdefault", "a", "x")),
+              ("rget",), ("setqs", "x=%zz"), ("mut", ("update", [])), ("rget",), ("mut", ("extend", [], "list")), ("rall",)]},
+    # copies share nothing with the original, before and after GET was read
+    {"qs0": "a=1", "fields": [("x", "\xe9")], "mode": "urlencoded",
+     "acts": [("copy", ("add", "q", "1")), ("rget",), ("copy", ("add", "q", "2")), ("copy_get", ("set", "a", "3")),
+              ("mut", ("add", "m", "1")), ("copy_get", ("clear",)), ("rall",)]},
+    # decode() more than once, after reads and copies, then the body is replaced
+    {"qs0": "a=%C3%A9", "fields": [("x", "\xe9\r\n"), ("f", ("a.txt", b"\xff\r\n--"))], "mode": "multipart",
+     "acts": [("decode", "latin-1"), ("decode", "latin-1"), ("rpost",), ("decode", "cp1252"), ("copy", ("add", "q", "1")),
+              ("decode", "latin-1"), ("body", [("n", "v" * 1200 + "\r\nw")], "multipart"), ("rpost",), ("decode", "latin-1"),
+              ("body", [("n", "2")], "urlencoded"), ("rall",), ("decode", "shift_jis"), ("rall",)]},
+    {"qs0": "", "fields": [("t", "x" * 1100 + "\r" + "y" * 1100 + "\n"), ("t", "\r\n" * 600)], "mode": "multipart",
+     "acts": [("rpost",), ("rparams",), ("copy", ("add", "a", "b")), ("rpost",), ("decode", "latin-1"), ("rall",)]},
+]
+
+
+# ===================================================================== caller's arguments / order independence
+def oracle_args(fields, mode, form):
+    """Request.blank(POST=...) must not mutate what the caller passed (containers, value tuples/lists, file objects'
+    contents, the environ dict), and passing the same objects again must give the same request."""
+    import io
+    from webob import Request
+    from webob.multidict import MultiDict
+    base, _, vform = form.partition("-")          # list|tuple|dict|md  -  ''|fileobj|listval
+    fileobjs = []
+
+    def val(v):
+        if isinstance(v, str):
+            return v
+        if vform == "fileobj":
+            fileobjs.append(io.BytesIO(v[1]))
+            return (v[0], fileobjs[-1])
+        return [v[0], v[1]] if vform == "listval" else (v[0], v[1])
+    if base == "dict":
+        seen = set()
+        fields = [f for f in fields if not (f[0] in seen or seen.add(f[0]))]
+    pairs = [(k, val(v)) for k, v in fields]
+    data = {"list": list, "tuple": tuple, "dict": dict, "md": MultiDict}[base](pairs)
+    environ = {"QUERY_STRING": "q=1", "HTTP_X_A": "b"}
+
+    def view():
+        return list(data.items()) if hasattr(data, "items") else list(data)
+
+    def snap():
+        out = []
+        for k, v in view():
+            if isinstance(v, str):
+                out.append((k, v))
+            else:
+                out.append((k, type(v).__name__, [(x.getvalue(), x.closed) if hasattr(x, "getvalue") else x for x in v]))
+        return [out, [id(v) for _, v in view()], type(data).__name__, sorted(environ.items())]
+    before = snap()
+    kw = {"content_type": {"multipart": "multipart/form-data", "urlencoded": "application/x-www-form-urlencoded"}[mode]}
+    want = want_post(fields)
+    for n in (1, 2):
+        for f in fileobjs:
+            f.seek(0)
+        try:
+            req = Request.blank("/", environ=environ, POST=data, **kw)
+            got = canon_post(req.POST)
+            req.GET.add("w", "1")
+            req.POST.add("w", "1")
+        except Exception as e:  # noqa
+            return "blank:raises", "Request.blank(POST=%r) use #%d raised %s: %s" % (data, n, type(e).__name__, e)
+        after = snap()
+        if after != before:
+            return "blank:caller-argument-mutated", "Request.blank changed its arguments from %r to %r" % (before, after)
+        if got != want:
+            return ("blank:second-use-differs" if n == 2 else classify_post(fields, mode)), \
+                "Request.blank(POST=%r) use #%d: POST %r, expected %r" % (data, n, got, want)
+    return None
+
+
+def order_eval(item):
+    t = item[0]
+    if t == "q":
+        return impl_get(item[1])
+    if t == "u":
+        return impl_unquote(item[1].encode("latin-1"))
+    if t == "w":
+        return impl_on_change([tuple(p) for p in item[1]])
+    if t == "m":
+        f = fix_fields(item[2])
+        body = impl_encode_multipart(item[1], f)
+        return [body, impl_decode_multipart(item[1], body) if isinstance(body, bytes) else None]
+    if t == "d":
+        r = oracle_decode_query([tuple(p) for p in item[1]], item[2], item[3], True)
+        return r and r[0]
+    raise ValueError(item)
+
+
+_ORDER_CHILD = """
+import json, sys, warnings
+warnings.simplefilter("ignore")
+from harness import fw
+from harness.props import c09
+items, perm = json.load(sys.stdin)
+res = {}
+for j in perm:
+    res[j] = fw.jsonable(c09.order_eval(items[j]))
+json.dump([res[j] for j in sorted(set(perm))], sys.stdout)
+"""
+
+
+def _order_run(items, perm):
+    """Evaluate the calls in the given order in a brand-new interpreter (module-level state starts empty)."""
+    import subprocess
+    import sys
+    p = subprocess.run([sys.executable, "-B", "-c", _ORDER_CHILD], input=json.dumps([fw.jsonable(items), perm]),
+                       capture_output=True, text=True, timeout=300)
+    if p.returncode != 0:
+        return {"child-failed": p.stderr[-400:]}
+    return json.loads(p.stdout)
+
+
+def oracle_order(items, perms):
+    """The same calls in different orders, each order in a fresh process: an answer must not depend on what ran
+    before it (module-level caches, tables filled lazily, state kept on compiled objects)."""
+    import concurrent.futures as cf
+    idx = list(range(len(items)))
+    with cf.ThreadPoolExecutor(4) as ex:
+        outs = list(ex.map(lambda perm: _order_run(items, perm), [idx] + [list(p) for p in perms]))
+    base = outs[0]
+    for perm, res in zip(perms, outs[1:]):
+        if isinstance(res, dict) or isinstance(base, dict):
+            return "order-dependence", "order evaluation failed: %r / %r" % (base, res)
+        for j in idx:
+            if res[j] != base[j]:
+                return "order-dependence", ("call %r gives %r when the calls run in order %r but %r in order 0..n"
+                                            % (items[j], res[j], perm, base[j]))
+    return None
+
+
+def _variants(rng, text, k):
+    """Near-duplicates of one input: same length, same beginning — what a too-coarse cache key confuses."""
+    out = [text]
+    for _ in range(k):
+        t = list(text)
+        if t:
+            pos = rng.randrange(len(t) // 2, len(t))
+            t[pos] = rng.choice("ab4z%+=&;")
+        out.append("".join(t))
+    return out
+
+
+def rand_order_items(rng, n):
+    items = []
+    while len(items) < n:
+        t = rng.choice("qquwmd")
+        if t in "qu":
+            base = rand_qs(rng, 8) if rng.random() < 0.5 else rand_valid_qs(rng)
+            items += [(t, v) for v in _variants(rng, base, 2)]
+        elif t == "w":
+            ps = rand_pairs(rng, 3)
+            items += [("w", ps), ("w", [(k, v + "x") for k, v in ps]), ("w", ps[::-1])]
+        elif t == "m":
+            f = [(k, v[:80] if isinstance(v, str) else (v[0], v[1][:100])) for k, v in rand_fields(rng, True, 2)]
+            b = rand_boundary(rng, f)
+            g = [(k, (v + "2") if isinstance(v, str) else (v[0], v[1] + b"2")) for k, v in f]
+            items += [("m", b, f), ("m", b, g)]
+        else:
+            cs = rng.choice(["latin-1", "cp1252", "shift_jis"])
+            ps = cs_pairs(rng, cs)
+            items += [("d", ps, cs, False), ("d", ps[::-1], cs, False), ("d", ps, cs, True)]
+    return items
+
+
 # ===================================================================== UTF-8 generators
 CP_BOUNDS = [0, 0x41, 0x7f, 0x80, 0x7ff, 0x800, 0xfff, 0x1000, 0xcfff, 0xd000, 0xd7ff, 0xe000, 0xfffd, 0xffff, 0x10000,
              0x3ffff, 0x40000, 0xfffff, 0x100000, 0x10ffff]
@@ -791,11 +1283,23 @@ def run(ctx):
         c = cases[i][2]
         _disagree(ctx, "request-get", c, oracle_history(c["qs0"], c["ops"]))
 
+    # ------------------------------------------------------------------ correspondence: held GetDict objects
+    cases = []
+    for _ in range(ctx.scale(300, 2000)):
+        qs0, ops = rand_held_history(rng, ctx.scale(8, 14))
+        cases.append((cpair(cstr(qs0), clist(chq(o) for o in ops)), run_held_history(qs0, ops),
+                      {"kind": "held", "qs0": qs0, "ops": ops}))
+    bad = ctx.corr("request-get-held", IMPORTS, "(fun c => run_request_held (fst c) (snd c))", cases,
+                   in_type="(str * list hq_op)", shard=30)
+    for i in bad[:6]:
+        c = cases[i][2]
+        _disagree(ctx, "request-get-held", c, run_held_history(c["qs0"], c["ops"], check=True))
+
     # ------------------------------------------------------------------ correspondence: multipart framing
     rng = ctx.sub_rng("corr-multipart")
     enc_cases, dec_cases = [], []
     for _ in range(ctx.scale(350, 2000)):
-        fields = [(k, v if isinstance(v, str) else (v[0], v[1][:200])) for k, v in
+        fields = [(k, v[:300] if isinstance(v, str) else (v[0], v[1][:200])) for k, v in
                   rand_fields(rng, True, 3, trailing_backslash=rng.random() < 0.03)]
         b = rand_boundary(rng, fields)
         body = impl_encode_multipart(b, fields)
@@ -871,6 +1375,65 @@ def run(ctx):
         if r:
             ctx.fail(r[0], r[1], {"kind": "history", "qs0": qs0, "ops": ops}, True, "mutation-random")
     ctx.oracle_count("mutation-random", m, m)
+
+    # ------------------------------------------------------------------ oracle: ONE long-lived Request / held GetDicts
+    rng = ctx.sub_rng("oracle-live")
+    cnt = 0
+    for c in DIRECTED_LIVE:
+        cnt += 1
+        case = dict(c, kind="live")
+        r = oracle_live(case)
+        if r:
+            ctx.fail(r[0], r[1], case, True, "live-request")
+    m = ctx.scale(5000, 60000)
+    for _ in range(m):
+        case = rand_live_case(rng, ctx.scale(14, 24))
+        r = oracle_live(case)
+        if r:
+            ctx.fail(r[0], r[1], case, True, "live-request")
+    ctx.oracle_count("live-request", cnt + m, cnt + m)
+    m = ctx.scale(4000, 40000)
+    for _ in range(m):
+        qs0, ops = rand_held_history(rng, 20)
+        r = run_held_history(qs0, ops, check=True)
+        if r:
+            ctx.fail(r[0], r[1], {"kind": "held", "qs0": qs0, "ops": ops}, True, "held-getdict")
+    # every 3-step interleaving of {mutation through a stale GetDict, raw edit, mutation through request.GET}
+    HU = [("held", 0, ("pop", "a", True, None)), ("held", 0, ("pop", "zz", True, "d")), ("held", 0, ("add", "k&", "+ %")),
+          ("held", 1, ("setdefault", "a", "x")), ("held", 1, ("del", "a")), ("held", 0, ("copy",)), ("setqs", "a=%31;b=+"),
+          ("setqs", "c=3"), ("setqs", ""), ("pop", "a", True, None), ("add", "\xe9", "1"), ("clear",), ("copy",),
+          ("update", []), ("del", "nope")]
+    cnt = 0
+    for d in range(1, ctx.scale(3, 4) + 1):
+        for ops in itertools.product(HU, repeat=d):
+            cnt += 1
+            r = run_held_history("a=1&b=2", list(ops), check=True)
+            if r:
+                ctx.fail(r[0], r[1], {"kind": "held", "qs0": "a=1&b=2", "ops": list(ops)}, True, "held-getdict")
+    ctx.oracle_count("held-getdict", m + cnt, m + cnt)
+
+    # ------------------------------------------------------------------ oracle: caller's arguments, call order
+    rng = ctx.sub_rng("oracle-args")
+    m = ctx.scale(1500, 15000)
+    for _ in range(m):
+        mode = rng.choice(["multipart", "multipart", "urlencoded"])
+        fields = rand_fields(rng, files=(mode == "multipart"), maxn=4)
+        form = rng.choice(["list", "tuple", "dict", "md"]) + rng.choice(["", "-fileobj", "-listval"])
+        r = oracle_args(fields, mode, form)
+        if r:
+            ctx.fail(r[0], r[1], {"kind": "args", "fields": fields, "mode": mode, "form": form}, True, "blank-args")
+    ctx.oracle_count("blank-args", m, m)
+    m = ctx.scale(10, 80)
+    n_calls = 0
+    for _ in range(m):
+        items = rand_order_items(rng, 30)
+        idx = list(range(len(items)))
+        perms = [idx[::-1], rng.sample(idx, len(idx))]
+        n_calls += 3 * len(items)
+        r = oracle_order(items, perms)
+        if r:
+            ctx.fail(r[0], r[1], {"kind": "order", "items": items, "perms": perms}, True, "call-order")
+    ctx.oracle_count("call-order", n_calls, n_calls)
 
     # ------------------------------------------------------------------ oracle: POST round trips
     rng = ctx.sub_rng("oracle-post")
@@ -983,6 +1546,14 @@ def replay(ctx, path):
         r = oracle_history("", [("extend", [tuple(p) for p in case["items"]], "list")])
     elif kind == "post":
         r = oracle_post(fix_fields(case["fields"]), case["mode"], case["form"])
+    elif kind == "live":
+        r = oracle_live(case)
+    elif kind == "held":
+        r = run_held_history(case["qs0"], [fix_hop(o) for o in case["ops"]], check=True)
+    elif kind == "args":
+        r = oracle_args(fix_fields(case["fields"]), case["mode"], case["form"])
+    elif kind == "order":
+        r = oracle_order(case["items"], case["perms"])
     elif kind == "decode-query":
         r = oracle_decode_query([tuple(p) for p in case["pairs"]], case["cs"], case["raw"], True)
     elif kind == "decode-multipart":
